@@ -17,7 +17,7 @@ from fractions import Fraction as F
 import numpy as np
 
 from harness import gallina as g
-from harness.util import import_df, js, attempt
+from harness.util import import_df, js, attempt, relayout, LAYOUTS
 
 df = import_df()
 
@@ -118,6 +118,8 @@ def gen_base(rng, tier, regime=None, nd=None, with_subs=None, ctype=None):
     return dict(regime=regime, pmin=[S(x) for x in flo], pmax=[S(x) for x in fhi], n=n, dims=dims, units=units,
                 subs=subs, nvdim=nvdim, dtype=dtype, vals=[S(v) for v in vals], valid=valid, vdims=vdims,
                 dims_repr=rng.choice(REPRS), units_repr=rng.choice(REPRS), vdims_repr=rng.choice(REPRS),
+                layout_vals=rng.choice(LAYOUTS), layout_valid=rng.choice(LAYOUTS),
+                assign=rng.choice(["ctor", "ctor", "setter"]),
                 ctype=ctype, sub_ctype=(ctype if (ctype == "float" or rng.random() < 0.6)
                                       else rng.choice(["float", "int", "int64"])))
 
@@ -203,6 +205,30 @@ def gen_k(rng):
     return rng.choice([-1001, -1000, -999, -998, 998, 999, 1000, 1001])
 
 
+KTYPES = ["int8", "int16", "int32", "int64", "uint8", "uint16", "uint32", "uint64"]
+
+
+def gen_ktype(rng, k, has_subs, refkind):
+    """how the integer k is spelled: Python int or a numpy integer type (value made to fit)"""
+    if rng.random() >= 0.45:
+        return "int", k, refkind
+    kt = rng.choice(KTYPES)
+    if kt.startswith("u"):
+        k = abs(k)
+    if kt == "uint8" and (k > 255 or rng.random() < 0.3):
+        k = 252 + k % 4                       # 252 .. 255
+    if kt == "int8" and abs(k) > 127:
+        k = (k % 4) + (-128 if k < 0 else 124)
+    if kt in ("int64", "uint64") and not has_subs and rng.random() < 0.4:
+        # beyond 2**31 (the angle k*pi/2 is still accurate to ~1e-6; keep the reference near)
+        k = rng.choice([2 ** 31, 2 ** 32, 2 ** 33]) + rng.randint(0, 7)
+        if kt == "int64" and rng.random() < 0.5:
+            k = -k
+        if refkind == "far":
+            refkind = "near"
+    return kt, k, refkind
+
+
 def make_case(rng, base, level, inplace, a, b, k, refkind, mapkind):
     c = dict(base)
     has_subs = bool(base["subs"])
@@ -212,11 +238,13 @@ def make_case(rng, base, level, inplace, a, b, k, refkind, mapkind):
             k = (k % 4) - 4 * rng.randint(0, 2)
         if refkind == "far":
             refkind = "near"
+    ktype, k, refkind = gen_ktype(rng, k, has_subs, refkind)
+    c["k_type"] = ktype
     ref = gen_ref(rng, base, refkind)
     if has_subs and ref is not None and max(abs(fl(x)) for x in ref) > 40:
         ref = None
         refkind = "none"
-    c.update(ref_repr=rng.choice(REPRS), k_bool=bool(k in (0, 1) and rng.random() < 0.5),
+    c.update(ref_repr=rng.choice(REPRS), k_bool=bool(ktype == "int" and k in (0, 1) and rng.random() < 0.5),
              ref_num=rng.choice(["float", "float", "mixed", "npscalar"]))
     if ref is not None and base.get("ctype", "float") != "float" and rng.random() < 0.25:
         # an integer reference point on an integer-typed region
@@ -267,13 +295,18 @@ def generate(rng, tier):
         a, b = rng.sample(dims, 2)
         level = rng.choice(["region", "mesh", "field"])
         c = make_case(rng, base, level, rng.random() < 0.5, a, b, gen_k(rng), "near", "perm")
-        bad = rng.choice(["equal", "unknown-a", "unknown-b", "ref-short", "ref-long"])
+        bad = rng.choice(["equal", "unknown-a", "unknown-b", "ref-short", "ref-long",
+                          "k-float", "k-str", "k-none", "k-npfloat", "k-half"])
         if bad == "equal":
             c["b"] = c["a"]
         elif bad == "unknown-a":
             c["a"] = "nope"
         elif bad == "unknown-b":
             c["b"] = "nope"
+        elif bad.startswith("k-"):
+            c["k_bad"] = bad[2:]
+            c["k_type"] = "int"
+            c["k_bool"] = False
         elif bad == "ref-short":
             c["ref"] = c["ref"][:-1]
         else:
@@ -340,6 +373,15 @@ def build_field(c):
         arr = np.array([int(F(x)) for x in c["vals"]], dtype=int).reshape(*c["n"], c["nvdim"])
     valid = np.array(c["valid"], dtype=bool).reshape(*c["n"])
     vm = None if c.get("vmap") is None else {v: t for v, t in c["vmap"]}
+    # same values, other memory layout / flags (Fortran order, strided view, read-only, negative strides)
+    arr = relayout(arr, c.get("layout_vals"))
+    valid = relayout(valid, c.get("layout_valid"))
+    if c.get("assign") == "setter":
+        f = df.Field(m, nvdim=c["nvdim"], value=np.zeros(arr.shape, dtype=dt), vdims=as_repr(c["vdims"], c.get("vdims_repr")),
+                     vdim_mapping=vm, dtype=dt, unit="A/m")
+        f.array = arr
+        f.valid = valid
+        return f
     return df.Field(m, nvdim=c["nvdim"], value=arr, valid=valid, vdims=as_repr(c["vdims"], c.get("vdims_repr")),
                     vdim_mapping=vm,
                     dtype=dt, unit="A/m")
@@ -350,10 +392,21 @@ def build(c, level=None):
     return {"region": build_region, "mesh": build_mesh, "field": build_field}[level](c)
 
 
+def spelled_k(c):
+    k = c["k"]
+    bad = c.get("k_bad")
+    if bad:
+        return {"float": float(k), "str": str(k), "none": None, "npfloat": np.float64(k), "half": k + 0.5}[bad]
+    if c.get("k_bool"):
+        return bool(k)                         # True / False are the integers 1 / 0
+    kt = c.get("k_type", "int")
+    return k if kt == "int" else getattr(np, kt)(k)
+
+
 def call(obj, c, inplace, k=None):
     ref = None if c["ref"] is None else as_repr(num_ref(c["ref"], c.get("ref_num", "float")), c.get("ref_repr"))
     if k is None:
-        k = bool(c["k"]) if c.get("k_bool") else c["k"]      # True / False are the integers 1 / 0
+        k = spelled_k(c)
     return obj.rotate90(c["a"], c["b"], k=k, reference_point=ref, inplace=inplace)
 
 
@@ -555,9 +608,14 @@ def run_case(c):
         viol.append("copy-leaves-original")
     if st_c != st_i:
         viol.append("inplace-eq-copy-acceptance")
+    if c.get("k_bad") and (st_c == "ok" or st_i == "ok"):
+        viol.append("non-integer-k-accepted")
     if st != "ok":
         if not malformed and not unmapped:
-            viol.append("valid-call-refused")
+            if c.get("k_type", "int") != "int" and attempt(lambda: call(build(c), c, False, k=k))[0] == "ok":
+                viol.append("integer-k-refused")       # the same call with k as a Python int is accepted
+            else:
+                viol.append("valid-call-refused")
         if st_i != "ok" and not obs_close(o0, observe(src_ip, level), level, 0) and False:
             pass  # state after a refused in-place call belongs to C13
         obs = dict(rejected=res)
@@ -647,8 +705,8 @@ def run_case(c):
     key = (f'{level}/{c["inplace"]}/{nd}/{dims0.index(c["a"]) if c["a"] in dims0 else -1}'
            f'{dims0.index(c["b"]) if c["b"] in dims0 else -1}/{k % 4}/{"neg" if k < 0 else "pos"}/{refk}/'
            f'{c.get("mapkind") if level == "field" else ""}/{c["dtype"] if level == "field" else ""}/'
-           f'{c["regime"]}/{c.get("ctype")}/{bool(c["subs"])}/{c.get("bad")}/{st}')
-    if bool_refused:
+           f'{c["regime"]}/{c.get("k_type")}/{c.get("ctype")}/{bool(c["subs"])}/{c.get("bad")}/{st}')
+    if bool_refused or c.get("k_bad"):
         coq = None
     rec.update(obs=js(obs), coq=coq, key=key,
                size=(len(c["vals"]) if level == "field" else 0) + nd + abs(k), nontrivial=True)
@@ -672,6 +730,12 @@ def stats(records):
         out["inplace"] += int(c["inplace"])
         out["negative_k"] += int(c["k"] < 0)
         out["default_reference"] += int(c["ref"] is None)
+        kt = c.get("k_type", "int")
+        out["numpy_k"] = out.get("numpy_k", 0) + int(kt != "int")
+        out["k_beyond_2^31"] = out.get("k_beyond_2^31", 0) + int(abs(c["k"]) >= 2 ** 31)
+        out["non_integer_k"] = out.get("non_integer_k", 0) + int(bool(c.get("k_bad")))
+        out["relayout"] = out.get("relayout", 0) + int(c["level"] == "field" and bool(c.get("layout_vals") or c.get("layout_valid")))
+        out["array_setter"] = out.get("array_setter", 0) + int(c["level"] == "field" and c.get("assign") == "setter")
         out["integer_corners"] = out.get("integer_corners", 0) + int(c.get("ctype", "float") != "float")
         out["integer_corners_fractional_ref"] = out.get("integer_corners_fractional_ref", 0) + int(
             c.get("ctype", "float") != "float" and c["ref"] is not None
